@@ -517,7 +517,7 @@ def leftover_worlds(sc, seed, tier, stats):
     return viol
 
 
-def crash_sweep(sc, seed, stats, variant, base, src, tpl, opts, names, sha_old, sha_new, one_inode):
+def crash_sweep(sc, seed, stats, variant, base, src, tpl, opts, names, sha_old, sha_new, one_inode, may_fail=False):
     """kill the run `sy src dst <opts>` before EVERY mutating call: every name of `names` exists and holds its old or its new content,
     keep.txt is intact, the source is untouched; the recovery run ends with the new content under every name, no working file
     (and, if asked, all names on one inode)"""
@@ -537,7 +537,13 @@ def crash_sweep(sc, seed, stats, variant, base, src, tpl, opts, names, sha_old, 
         return p, sum(1 for l in lines if l[:1].isdigit()), any(l.startswith("KILLED") for l in lines), lines
     fresh(tpl, dst)
     p, M, _k, _l = shim_run(0)
-    if p.returncode != 0 or M == 0:
+    ref_failed = p.returncode != 0
+    if ref_failed and may_fail:
+        # the update itself cannot be made here (reported, exit status 1, on every run): what is left to check is that no kill point
+        # of the attempt leaves the file torn -- convergence is not expected
+        if any(not os.path.isfile(dst + "/" + nme) or world.sha(dst + "/" + nme) != sha_old for nme in names):
+            return [{"variant": variant, "why": "the run failed (rc=%s) and the destination file is not what it was" % p.returncode}]
+    elif ref_failed or M == 0:
         return [{"variant": variant, "why": "the uninterrupted reference run failed or made no call: rc=%s calls=%d %s" % (p.returncode, M, p.stderr.decode("utf-8", "replace")[-200:])}]
     for k in range(1, M + 1):
         fresh(tpl, dst)
@@ -557,7 +563,7 @@ def crash_sweep(sc, seed, stats, variant, base, src, tpl, opts, names, sha_old, 
                 bad.append("%s holds neither its old nor its new content" % nme)
         if not os.path.isfile(dst + "/keep.txt") or world.sha(dst + "/keep.txt") != sha_keep:
             bad.append("the bystander keep.txt is not intact")
-        if not bad:
+        if not bad and not ref_failed:
             q = subprocess.run(cmd, env=env0, cwd=sc.dir, stdout=subprocess.PIPE, stderr=subprocess.PIPE, timeout=120)
             if q.returncode != 0:
                 bad.append("the recovery run failed: rc=%s %s" % (q.returncode, q.stderr.decode("utf-8", "replace")[-200:]))
@@ -632,6 +638,31 @@ def bigtwin_crash_family(sc, seed, tier, stats):
     return viol
 
 
+def longname_crash_family(sc, seed, tier, stats):
+    """(seed C09-5) a destination at the gate whose NAME is 249..255 bytes long: its working file <name>.sy.tmp cannot be created
+    (ENAMETOOLONG).  The code reports that and leaves the file alone on every run; whatever it does instead must not tear the file."""
+    viol = []
+    for wi in range(1 if tier == "quick" else 3):
+        r = vlib.rng_for(seed, "C09-longname%d" % wi)
+        base = os.path.join(sc.dir, "ln%d" % wi)
+        src, tpl = base + "/src", base + "/tpl"
+        os.makedirs(src); os.makedirs(tpl)
+        name = "n" * (249 + 3 * wi)
+        new = r.randbytes(2 * ew.BIG + 40000)
+        old = bytearray(new); old[500:504] = b"XXXX"; old[150000:150004] = b"YYYY"; old = bytes(old)      # few blocks differ: the block-delta branch
+        for root, data, mt in ((src, new, 1005), (tpl, old, 800)):
+            with open(root + "/" + name, "wb") as f:
+                f.write(data); f.flush(); os.fsync(f.fileno())
+            os.utime(root + "/" + name, ns=(ew.T0NS + mt * NS,) * 2)
+            with open(root + "/keep.txt", "wb") as f:
+                f.write(b"bystander")
+            os.utime(root + "/keep.txt", ns=(ew.T0NS + 700 * NS,) * 2)
+        world.sync_fs()
+        viol += crash_sweep(sc, seed, stats, "longname-crash-%d" % wi, base, src, tpl, ["-j1"], [name], world.sha(tpl + "/" + name), world.sha(src + "/" + name), False, may_fail=True)
+        shutil.rmtree(base, ignore_errors=True)
+    return viol
+
+
 def follow_crash_family(sc, seed, tier, stats):
     """(66e379c) --links follow over a regular file at or above the gate that sits in the link's place: it is an existing large
     destination being updated -- old or new at every kill point (it used to be truncated and rewritten where it was)"""
@@ -681,7 +712,7 @@ def run(tier, seed):
             for x in vv:
                 x["seed"] = seed
             viol += vv; diffs += dd
-        left_viol = leftover_worlds(sc, seed, tier, stats) + hardlink_crash_family(sc, seed, tier, stats) + follow_crash_family(sc, seed, tier, stats) + bigtwin_crash_family(sc, seed, tier, stats)
+        left_viol = leftover_worlds(sc, seed, tier, stats) + hardlink_crash_family(sc, seed, tier, stats) + follow_crash_family(sc, seed, tier, stats) + bigtwin_crash_family(sc, seed, tier, stats) + longname_crash_family(sc, seed, tier, stats)
         # with several workers the attribution of logged calls to executed prefixes is a heuristic (a thread may have logged a
         # call it never got to execute): a difference seen there counts only if it shows up again at the same kill point
         softv = [x for x in viol if x.get("flags", {}).get("j", 1) > 1 and "k" in x and "not being written" in x.get("why", "")]
